@@ -14,6 +14,7 @@ import (
 	"syscall"
 
 	"github.com/tigerwill90/fox"
+	vs "github.com/tigerwill90/fox/verifsync"
 
 	"verifharness/fx"
 	"verifharness/mc"
@@ -442,6 +443,105 @@ func run(c *mc.Ctx, r *mc.Result) {
 	}
 }
 
+// ---------------------------------------------------------------------------------------------
+// concurrent: two panicking requests inside the same Recovery instance
+// ---------------------------------------------------------------------------------------------
+
+type stepCapture struct{ recs *[]string }
+
+func (c stepCapture) Enabled(context.Context, slog.Level) bool { vs.Step("slog.Enabled"); return true }
+func (c stepCapture) Handle(_ context.Context, r slog.Record) error {
+	vs.Step("slog.Handle")
+	var sb strings.Builder
+	sb.WriteString(r.Level.String() + " " + r.Message)
+	r.Attrs(func(a slog.Attr) bool { sb.WriteString("\n@" + a.Key + "=" + a.Value.String()); return true })
+	*c.recs = append(*c.recs, sb.String())
+	return nil
+}
+func (c stepCapture) WithAttrs([]slog.Attr) slog.Handler { return c }
+func (c stepCapture) WithGroup(string) slog.Handler      { return c }
+
+func concScenarios() []*mc.Scenario {
+	var out []*mc.Scenario
+	for _, second := range []string{"panic", "ok", "notfound"} {
+		second := second
+		out = append(out, &mc.Scenario{
+			Name:     "recovery panic || " + second,
+			Describe: "two threads serve requests through the same Recovery middleware (scheduling points in the handlers, in the slog handler and in the 500 writer); thread 0 panics, thread 1 " + second,
+			Build: func() *mc.Instance {
+				var recs []string
+				rec := fox.CustomRecoveryWithLogHandler(stepCapture{&recs}, func(c fox.Context, err any) {
+					vs.Step("recovery handler")
+					fox.DefaultHandleRecovery(c, err)
+				})
+				f, err := fox.New(fox.WithMiddlewareFor(fox.AllHandlers, rec))
+				if err != nil {
+					panic(err)
+				}
+				f.MustHandle("GET", "/boom/{id}", func(c fox.Context) {
+					vs.Step("handler")
+					panic("value-" + c.Param("id"))
+				})
+				f.MustHandle("GET", "/fine/{id}", func(c fox.Context) {
+					vs.Step("handler")
+					c.Writer().WriteHeader(204)
+				})
+				rws := []*fx.RW{fx.NewRW(), fx.NewRW()}
+				paths := []string{"/boom/AAA", map[string]string{"panic": "/boom/BBB", "ok": "/fine/BBB", "notfound": "/nowhere/BBB"}[second]}
+				serve := func(i int) func() {
+					return func() {
+						rq := fx.Req("GET", "", paths[i])
+						rq.Header["X-Tok"] = []string{"tok-" + paths[i]}
+						f.ServeHTTP(rws[i], rq)
+					}
+				}
+				return &mc.Instance{
+					Bodies: []func(){serve(0), serve(1)},
+					Check: func(x *mc.Exec) (string, string, string) {
+						if x.S.Deadlock {
+							return "deadlock", "deadlock", x.S.DeadInfo
+						}
+						for t := 0; t < 2; t++ {
+							if pv, stk := x.S.PanicOf(t); pv != nil {
+								return "panic", "panic-escaped", fmt.Sprintf("thread %d: %v\n%s", t, pv, mc.NormStack(stk, 10))
+							}
+						}
+						wantRecs := 1
+						wantCode := map[string]int{"panic": 500, "ok": 204, "notfound": 404}[second]
+						if second == "panic" {
+							wantRecs = 2
+						}
+						if rws[0].Code != 500 || rws[1].Code != wantCode {
+							return "status", "no-500", fmt.Sprintf("statuses %d and %d, want 500 and %d", rws[0].Code, rws[1].Code, wantCode)
+						}
+						if len(recs) != wantRecs {
+							return "count", "record-count", fmt.Sprintf("%d diagnostic records, want %d", len(recs), wantRecs)
+						}
+						for i, id := range []string{"AAA", "BBB"}[:wantRecs] {
+							other := []string{"BBB", "AAA"}[i]
+							n := 0
+							for _, rc := range recs {
+								if !strings.Contains(rc, "value-"+id) {
+									continue
+								}
+								n++
+								if strings.Contains(rc, other) || !strings.Contains(rc, "id="+id) || !strings.Contains(rc, "tok-/boom/"+id) || !strings.Contains(rc, "GET /boom/"+id+" HTTP/1.1") {
+									return "mixed", "record-mixes-requests", fmt.Sprintf("the record of the panic of request %s is\n%s", id, rc)
+								}
+							}
+							if n != 1 {
+								return "count", "record-count", fmt.Sprintf("%d records for the panic of request %s", n, id)
+							}
+						}
+						return "ok " + fmt.Sprint(len(recs)), "", ""
+					},
+				}
+			},
+		})
+	}
+	return out
+}
+
 // silence redirects the process's stdout and stderr to /dev/null (fox's default log handler writes
 // there) and returns the function that restores them.
 func silence() func() {
@@ -571,8 +671,13 @@ func init() {
 			"a panic value that merely wraps a broken-connection *net.OpError is not decided by the statement (abstained for the 500 rule only)",
 			"lock release is decided by the shim (locking a held mutex panics instead of hanging)",
 		},
-		WorkerInit: func() { mc.DeterministicPools() },
-		Parts: []mc.Part{{Name: "faults", Run: run, Replay: func(c *mc.Ctx, raw json.RawMessage) string {
+		Parts: []mc.Part{{Name: "faults", Run: func(c *mc.Ctx, r *mc.Result) {
+			un := mc.DeterministicPools()
+			defer un()
+			run(c, r)
+		}, Replay: func(c *mc.Ctx, raw json.RawMessage) string {
+			un := mc.DeterministicPools()
+			defer un()
 			var probe map[string]any
 			json.Unmarshal(raw, &probe)
 			if probe["managed"] == true {
@@ -585,7 +690,15 @@ func init() {
 			}
 			_, msg := evalCase(cs)
 			return msg
-		}}, {Name: "default-handler", Run: runDefault, Replay: func(c *mc.Ctx, raw json.RawMessage) string {
+		}}, {Name: "concurrent", Run: func(c *mc.Ctx, r *mc.Result) {
+			bound := 3
+			if c.Quick() {
+				bound = 2
+			}
+			for _, sc := range concScenarios() {
+				mc.Explore(c, r, "concurrent", sc, mc.ExploreOpts{Bound: bound})
+			}
+		}, Replay: func(c *mc.Ctx, raw json.RawMessage) string { return mc.ReplaySched(concScenarios(), raw) }}, {Name: "default-handler", Run: runDefault, Replay: func(c *mc.Ctx, raw json.RawMessage) string {
 			var cs DefCase
 			if err := json.Unmarshal(raw, &cs); err != nil {
 				return "bad case"
